@@ -264,6 +264,42 @@ def actorStep (vs : List Variant) (handled : List (String × List Val)) (m : SMs
   | some d => handled ++ [d]
   | none => handled
 
+/-- What `TActor::Msg::from_boxed` did with a serialized message (under `catch_unwind`). -/
+inductive Decoded where
+  | ok (d : String × List Val)
+  | err
+  | panic
+  deriving Repr
+
+/-- the actor as `handle_message` sees it: the messages `handle` was called with, whether the
+message loop goes on (`handle_message` returned `Ok`), and how many reply ports of `Call`s were
+dropped unanswered (their callers observe a closed port — an absence, never a value) -/
+structure ActorSt where
+  handled : List (String × List Val) := []
+  running : Bool := true
+  droppedPorts : Nat := 0
+  deriving Repr
+
+def SMsg.isCall : SMsg → Bool
+  | .call _ _ => true
+  | _ => false
+
+/-- `Actor::handle_message`, serialized branch (`actor.rs`): `catch_unwind(from_boxed)`;
+`Ok(Ok(msg))` ⇒ `handle(msg)` (the probe's `handle` records the message and, for a call, lets the
+port go); `Ok(Err(_))` and `Err(_)` (a panicking decoder) ⇒ the message — with its reply port — is
+dropped and `Ok(())` is returned: state and message loop are untouched. -/
+def handleMessage (st : ActorSt) (m : SMsg) : Decoded → ActorSt
+  | .ok d => { st with handled := st.handled ++ [d], droppedPorts := st.droppedPorts + (if m.isCall then 1 else 0) }
+  | .err => { st with droppedPorts := st.droppedPorts + (if m.isCall then 1 else 0) }
+  | .panic => { st with droppedPorts := st.droppedPorts + (if m.isCall then 1 else 0) }
+
+/-- the generated decoder as `from_boxed` sees it: a panic inside a field conversion is already
+caught by the generated code (`unpack_arg`) and reported as `Err` -/
+def decodedOf (vs : List Variant) (m : SMsg) : Decoded :=
+  match deserialize vs m with
+  | some d => .ok d
+  | none => .err
+
 /-! ## Frames -/
 
 /-- `FRAME_READ_CHUNK_SIZE` -/
